@@ -53,12 +53,18 @@ DATASETS["buffered"] = [("zz", [("z", None)]),
                         ("alpha", [("r", None), ("a", 0)]),
                         ("alpha", [("r", None), ("a", 0), ("b", 0)]),
                         ("alpha", [("r", None), ("b", 0)]),
-                        ("zz", [("z", None)])]
+                        ("zz", [("z", None)]),
+                        ("alpha", [("r", None), ("c", 0)]),
+                        ("alpha", [("r", None), ("c", 0), ("c", 0)])]
 BUFFERED_TIMES = {0: [(0.0, 0.01)],
                   1: [(2.0, 3.0), (2.2, 2.8)],
                   2: [(0.5, 2.0), (0.6, 0.8), (0.7, 0.9)],   # root ends inside
                   3: [(3.0, 4.5), (4.1, 4.4)],               # root starts inside
-                  4: [(4.99, 5.0)]}
+                  4: [(4.99, 5.0)],
+                  # just inside the window [1, 4]: would fall outside a window
+                  # re-derived from the surviving spans only
+                  5: [(1.05, 1.3), (1.1, 1.2)],
+                  6: [(3.7, 3.95), (3.75, 3.8), (3.85, 3.9)]}
 TIME_BUFFER = {"buffered": 1}
 # more distinct span ids than one default-size batch (1000): a re-ingest has
 # to recognise every stored id
